@@ -155,6 +155,26 @@ theorem quantile_none_iff (a : List Rat) (q : Rat) : quantile a q = none ↔ a =
     rw [ha] at hs
     simp [sortRat] at hs
 
+/-! ### the bootstrap loop leaves the best-fit parameters alone -/
+
+theorem bootstrapLoop_spec (raw : Option Rat) (bounds : List (Rat × Rat)) :
+    bootstrapLoop raw bounds = (raw, bounds.map (hintFor raw)) := by
+  unfold bootstrapLoop
+  suffices h : ∀ (acc : List (Option Rat)),
+      bounds.foldl (fun st b => (st.1, st.2 ++ [hintFor st.1 b])) (raw, acc)
+        = (raw, acc ++ bounds.map (hintFor raw)) by
+    simpa using h []
+  induction bounds with
+  | nil => intro acc; simp
+  | cons b bs ih => intro acc; simp [ih]
+
+/-! ### behaviour before commit 182c096 (kept for the regression example of C16):
+    `get_fit_params` replaced `params_0[0]` in place and `params_0` was the caller's `params_opt`,
+    so the value carried through the loop, and finally reported, was the last start value -/
+
+def oldReportedPth (raw : Option Rat) (bounds : List (Rat × Rat)) : Option Rat :=
+  bounds.foldl hintFor raw
+
 /-! ### `np.isclose` -/
 
 theorem isClose_iff (a b : Rat) : isClose a b = true ↔ |a - b| ≤ 1 / 100000000 + 1 / 100000 * |b| := by
